@@ -290,6 +290,18 @@ class ColorVisuals(Visuals):
         # the initial hash of the colors
         key_hash = key_colors + "_hash"
 
+        if key_colors not in self._data and key_colors in self._cache:
+            cached = self._cache[key_colors]
+            if (
+                count is not None
+                and cached.shape != (count, 4)
+                and hash(cached) == self._cache[key_hash]
+            ):
+                # untouched generated colors for a different number of faces
+                # or vertices: the mesh has changed so generate them again
+                self._cache.delete(key_colors)
+                self._cache.delete(key_hash)
+
         if key_colors in self._data:
             # if a user has explicitly stored or changed the color it
             # will be in data
